@@ -43,14 +43,16 @@ fn run_thread(dict: Arc<JapaneseDictionary>, ops: Vec<serde_json::Value>) -> Vec
                 let mut s = String::new();
                 for m in list.iter() {
                     s.push_str(&format!(
-                        "{}:{}:{}:{}:{}:{}:{}|",
+                        "{}:{}:{}:{}:{}:{}:{}:{}:{:?}|",
                         m.begin(),
                         m.end(),
                         m.word_id().as_raw(),
                         m.part_of_speech_id(),
                         m.normalized_form(),
                         m.reading_form(),
-                        m.total_cost()
+                        m.total_cost(),
+                        m.dictionary_form(),
+                        m.synonym_group_ids()
                     ));
                 }
                 out.push(s);
